@@ -1,6 +1,7 @@
 SPECIFICATION Spec
 CONSTANTS
   MaxSlots = 3
+  OnlyEq = FALSE
 INVARIANT SigsScoped
 INVARIANT InferRecovers
 INVARIANT InferMidTotal
